@@ -127,6 +127,16 @@ impl Stats {
 #[derive(Clone, Copy)]
 pub struct Env {
     pub ctx: Tok,
+    /// bodies of the enclosing `Rec` nodes, innermost first (raw: the grammar tree outlives evaluation)
+    pub rec: [*const G; 2],
+}
+impl Env {
+    pub fn new(ctx: Tok) -> Env {
+        Env { ctx, rec: [std::ptr::null(); 2] }
+    }
+    fn with_ctx(self, ctx: Tok) -> Env {
+        Env { ctx, ..self }
+    }
 }
 
 pub struct World<'a> {
@@ -739,6 +749,19 @@ fn eval0(g: &G, pos: usize, env: Env, w: &mut World) -> R {
             let (e, _) = eval(a, pos, env, w)?;
             Some((e, Val::Z))
         }
+        Rec(body, _) => {
+            // native recursion of the evaluator = the grammar unrolled as deep as the input requires
+            let inner = Env { rec: [&**body as *const G, env.rec[0]], ..env };
+            eval(body, pos, inner, w)
+        }
+        RecRef(k) => {
+            let body = env.rec[*k as usize];
+            assert!(!body.is_null(), "model: rec_ref outside rec");
+            // SAFETY: points into the grammar tree being evaluated, which outlives this call
+            let body: &G = unsafe { &*body };
+            let inner = if *k == 0 { env } else { Env { rec: [env.rec[1], std::ptr::null()], ..env } };
+            eval(body, pos, inner, w)
+        }
         Ext(a, _) | CustomNest(a) => {
             // `inp.parse(&inner)` takes the WHOLE pending error on failure and hands it to the caller as
             // a value; Ext / custom then file it under their own start position
@@ -1159,18 +1182,18 @@ fn eval0(g: &G, pos: usize, env: Env, w: &mut World) -> R {
                 }
             }
         }
-        WithCtx(c, a) => eval(a, pos, Env { ctx: *c }, w),
-        MapCtx(a) => eval(a, pos, Env { ctx: succ(env.ctx) }, w),
+        WithCtx(c, a) => eval(a, pos, env.with_ctx(*c), w),
+        MapCtx(a) => eval(a, pos, env.with_ctx(succ(env.ctx)), w),
         ThenWithCtx(a, c) => {
             let (e1, v1) = eval(a, pos, env, w)?;
             let cx = ctx_of(&v1);
-            let (e2, v2) = eval(c, e1, Env { ctx: cx }, w)?;
+            let (e2, v2) = eval(c, e1, env.with_ctx(cx), w)?;
             Some((e2, Val::P(bx(Val::T(cx)), bx(v2))))
         }
         IgnoreWithCtx(a, c) => {
             let (e1, v1) = eval(a, pos, env, w)?;
             let cx = ctx_of(&v1);
-            let (e2, v2) = eval(c, e1, Env { ctx: cx }, w)?;
+            let (e2, v2) = eval(c, e1, env.with_ctx(cx), w)?;
             Some((e2, v2))
         }
     }
@@ -1201,7 +1224,7 @@ pub const CTX0: Tok = '\0';
 /// `parse(g, toks)` = `g.then_ignore(end())`.
 pub fn parse(g: &G, toks: &[Tok], sw: Sw, probes: Probes) -> (Outcome, Stats) {
     let mut w = World::new(toks, sw, probes);
-    let env = Env { ctx: CTX0 };
+    let env = Env::new(CTX0);
     let r = eval(g, 0, env, &mut w);
     let matched_prefix = r.as_ref().map(|(e, _)| *e);
     let output = match r {
@@ -1228,5 +1251,5 @@ pub fn parse(g: &G, toks: &[Tok], sw: Sw, probes: Probes) -> (Outcome, Stats) {
 /// `g.lazy().parse(toks)`: accepts iff `g` matches a prefix.
 pub fn parse_lazy(g: &G, toks: &[Tok], sw: Sw, probes: Probes) -> Option<(usize, Val)> {
     let mut w = World::new(toks, sw, probes);
-    eval(g, 0, Env { ctx: CTX0 }, &mut w)
+    eval(g, 0, Env::new(CTX0), &mut w)
 }
